@@ -81,9 +81,18 @@ func (s *secureSession) Read(buf []byte) (int, error) {
 	}
 
 	// copy as many bytes as we can; update seek pointer.
-	s.qseek = copy(buf, s.qbuf)
+	copied := copy(buf, s.qbuf)
+	s.qseek = copied
+	if s.qseek == len(s.qbuf) {
+		// the whole message fit into buf: nothing is left to queue. Release
+		// the buffer now; keeping an exhausted queue would make the next Read
+		// return (0, nil) although the next message may already be waiting,
+		// which readers such as multistream-select treat as a failure.
+		pool.Put(s.qbuf)
+		s.qseek, s.qbuf = 0, nil
+	}
 
-	return s.qseek, nil
+	return copied, nil
 }
 
 // Write encrypts the plaintext `in` data and sends it on the
